@@ -128,6 +128,38 @@ MUTANTS = [
     ("c11_hermitian_rmm_shortcut_wrong", "C11", "xitorch/_core/linop.py",
      "        if self._is_hermitian:\n            return self.mm(x)\n",
      "        if self.shape[-1] == self.shape[-2]:\n            return self.mm(x)\n", 1),
+    # ---------------- C17
+    ("c17_cache_always_valid", "C17", "xitorch/grad/jachess.py",
+     "    def __param_tensors_unchanged(self):\n        return [id(param)",
+     "    def __param_tensors_unchanged(self):\n        return True or [id(param)", 1),
+    ("c17_objparams_alias_revert", "C17", "xitorch/grad/jachess.py",
+     "        self.objparams = list(fcn.objparams())\n", "        self.objparams = fcn.objparams()\n", 1),
+    ("c17_cache_ignores_objparams", "C17", "xitorch/grad/jachess.py",
+     "               [id(param) for param in self.objparams] == self.id_objparams_tensor\n",
+     "               True\n", 1),
+    ("c17_mv_no_create_graph", "C17", "xitorch/grad/jachess.py",
+     "retain_graph=True, create_graph=torch.is_grad_enabled())  # (*nout)\n",
+     "retain_graph=True, create_graph=False)  # (*nout)\n", 1),
+    ("c17_rmv_no_create_graph", "C17", "xitorch/grad/jachess.py",
+     "retain_graph=True, create_graph=torch.is_grad_enabled())  # (*nin)\n",
+     "retain_graph=True, create_graph=False)  # (*nin)\n", 1),
+    ("c17_mv_no_update_params", "C17", "xitorch/grad/jachess.py",
+     "                self.__update_params()\n                yparam = self.params[self.idx]\n                yout = self.fcn(*self.params)  # (*nout)\n                v = ",
+     "                yparam = self.params[self.idx]\n                yout = self.fcn(*self.params)  # (*nout)\n                v = ", 1),
+    ("c17_rmv_no_useobjparams", "C17", "xitorch/grad/jachess.py",
+     "            with torch.enable_grad(), self.fcn.useobjparams(self.objparams):\n                self.__update_params()\n                yparam = self.params[self.idx]\n                yout = self.fcn(*self.params)  # (*nout)\n\n",
+     "            with torch.enable_grad():\n                self.__update_params()\n                yparam = self.params[self.idx]\n                yout = self.fcn(*self.params)  # (*nout)\n\n", 1),
+    ("c17_rmv_reshape_inshape", "C17", "xitorch/grad/jachess.py",
+     "grad_outputs=gout1[i].reshape(self.outshape),", "grad_outputs=gout1[i].reshape(self.inshape),", 1),
+    ("c17_linop_restore_params", "C17", "xitorch/_core/linop.py",
+     "            self.setuniqueparams(methodname, *_orig_params_)\n",
+     "            self.setuniqueparams(methodname, *params)\n", 1),
+    ("c17_solve_bwd_no_substitution", "C17", "xitorch/linalg/solve.py",
+     "            params = [p.clone().requires_grad_() for p in params]\n            with ctx.A.uselinopparams(*params):\n                loss = -ctx.A.mm(x)  # (*BABEM, nr, ncols)\n",
+     "            with ctx.A.uselinopparams(*params):\n                loss = -ctx.A.mm(x)  # (*BABEM, nr, ncols)\n", 1),
+    ("c17_nofa_connect_graph_removed", "C17", "xitorch/grad/jachess.py",
+     "        res = connect_graph(res, self.objparams)\n        return res\n",
+     "        return res\n", 0),
     ("c11_nofa_init_subclass", "C11", "xitorch/_core/linop.py",
      "    def __new__(cls, *args, **kwargs):\n        # check the implemented functions in the class\n",
      "    def __init_subclass__(cls, **kwargs):\n        super().__init_subclass__(**kwargs)\n"
